@@ -115,7 +115,17 @@ def gen_cases(ctx):
             t = (pools[kind](k)[:1] or s[:1]) + s[:rng.randrange(0, len(s) + 1)]
         if rng.random() < 0.5:
             s, t = t, s
-        c = (1, 1, 1) if rng.random() < 0.5 else (rng.randrange(1, 5), rng.randrange(1, 5), rng.randrange(1, 5))
+        r = rng.random()
+        if r < 0.45:
+            c = (1, 1, 1)
+        elif r < 0.8:
+            c = (rng.randrange(1, 5), rng.randrange(1, 5), rng.randrange(1, 5))
+        else:
+            # "any positive integer costs": large magnitudes where competing routes differ by 1 in 10^5..10^9 (substitution one
+            # cheaper / dearer than deletion + insertion), and unrelated large costs
+            d, i = rng.choice([10 ** 5, 10 ** 6, 123457, 10 ** 9]), rng.choice([10 ** 5, 10 ** 6, 99991, 10 ** 9])
+            c = (rng.choice([d + i - 1, d + i + 1, d + i, rng.randrange(1, 2 * 10 ** 6)]), i, d)
+            ctx.count('large_costs')
         cases.append(('rnd-' + kind, s, t, c))
     return cases
 
